@@ -51,6 +51,7 @@ func runC07(c *Ctx) {
 		// the key routine: the out-parameter helper NewKeyFromSeed fills its fresh buffer with, or NewKeyFromSeed itself when
 		// it fills the buffer in place. base = the buffer, view = how its 64 bytes are addressed, seed = the seed parameter
 		helper, hb, base, view, seed, seedIdx := (*ssa.Function)(nil), (*ana.Builder)(nil), "p0", "self", "p1", 1
+		keyHelperPub = nil
 		inline := false
 		for _, e := range ana.Exits(f.Function) {
 			if e.Panic {
@@ -91,8 +92,21 @@ func runC07(c *Ctx) {
 				}
 				// the two copies write disjoint halves (len(seed) == 32 is guarded), so their order is immaterial
 				seedCopy := "call<builtin.copy>(alt(" + view + ", slice(" + view + ", 0, 32)), " + seed + ")"
-				pubCopy := "call<builtin.copy>(slice(" + view + ", 32, none), call<(*ed.Point).Bytes>(obj(_, call<(*ed.Point).ScalarBaseMult>(self, " + patClamped + "))))"
+				pubCopy := "call<builtin.copy>(slice(" + view + ", 32, none), $P)"
 				bd, ok := ana.Match("alt(obj("+base+", "+seedCopy+", "+pubCopy+"), obj("+base+", "+pubCopy+", "+seedCopy+"))", st)
+				if ok {
+					var pb ana.Binds
+					if pb, ok = ana.Match("call<(*ed.Point).Bytes>(obj(_, call<(*ed.Point).ScalarBaseMult>(self, "+patClamped+")))", bd["$P"]); ok {
+						bd["$seed"] = pb["$seed"]
+					}
+				}
+				if ok && !inline && len(e.Results) == 1 {
+					// a key routine that also hands back the encoded public key: exactly the bytes it copied into the buffer
+					rt := expandAll(c, hb.Of(e.Results[0], e.Instr))
+					if rt.String() == bd["$P"].String() {
+						keyHelperPub = helper
+					}
+				}
 				if !ok {
 					r.Viol("C07.keygen-flow.buffer", pos(e.Instr), "private key buffer at return is not seed ‖ [clamp(SHA512(seed)[:32])]B: %s", short(st.String(), 500))
 					continue
@@ -211,6 +225,18 @@ func runC07(c *Ctx) {
 				pub := b.Of(e.Results[0], e.Instr)
 				_, ok1 := ana.Match("call<repo/pkg/ed25519.NewKeyFromSeed>("+seedAfter+")", priv)
 				_, ok2 := ana.Match("slice(obj(alloc<[32]byte>, call<builtin.copy>(slice(self, 0, 32), slice(call<repo/pkg/ed25519.NewKeyFromSeed>("+seedAfter+"), 32, none))), 0, 32)", pub)
+				if !ok1 && !ok2 && keyHelperPub != nil {
+					// GenerateKey fills its own 64-byte buffer through the key routine NewKeyFromSeed uses (decided above) and
+					// returns the encoded public key that routine hands back (the bytes it copied to buffer[32:])
+					H := keyHelperPub.String()
+					pb, m1 := ana.Match("slice(obj(alloc<[64]byte>, $call), 0, alt(none, 64))", priv)
+					if m1 {
+						_, m1 = ana.Match("call<"+H+">(slice(self, 0, alt(none, 64)), "+seedAfter+")", pb["$call"])
+					}
+					_, m2 := ana.Match("call<"+H+">(slice(alloc<[64]byte>, 0, alt(none, 64)), "+seedAfter+")", pub)
+					ok1 = m1
+					ok2 = m1 && m2 && stripObj(pub).V != nil && stripObj(pub).V == pb["$call"].V
+				}
 				r.Check(ok1, "C07.generate.private", pos(e.Instr), "private = NewKeyFromSeed(32 bytes filled by io.ReadFull): %s", short(priv.String(), 300))
 				r.Check(ok2, "C07.generate.public", pos(e.Instr), "public = copy of private[32:]: %s", short(pub.String(), 300))
 				es := edgesMatching(b, "bin<==>(ext#1("+readFull+"), nil)")
@@ -231,6 +257,9 @@ func runC07(c *Ctx) {
 // followOutBuf matches the entry's returned term against retPat (binding $O to
 // the output-buffer object), matches $O against objPat and returns the private
 // helper that fills the buffer together with a builder for it.
+// keyHelperPub is the out-parameter key routine when it also returns the encoded public key (set by the keygen rule).
+var keyHelperPub *ssa.Function
+
 func followOutBuf(c *Ctx, key string, fn *ssa.Function, b *ana.Builder, objPat, retPat string) (*ssa.Function, *ana.Builder) {
 	for _, e := range ana.Exits(fn) {
 		if e.Panic {
